@@ -252,6 +252,17 @@ def r18e(P, R):
         bad = [c["method"] for c in f.walk() if c.get("k") == "MethodCall" and c["method"] in
                ("take", "find", "find_map", "next", "nth", "first", "last", "take_while", "skip", "step_by", "truncate", "pop")]
         R.check("R18-e", "no-truncation:" + f.name, not bad, "no diagnostic list is truncated", "%s applies %s to a diagnostics/operations list" % (f.path, bad), loc=f.loc())
+    # CliOutput::extend appends every diagnostic it is given
+    ext = [f for f in P.trait_impls("core::iter::traits::collect::Extend", "extend") if (f.self_adt or "").endswith("CliOutput")]
+    for f in ext:
+        pve = Prov(f)
+        lossy = [c["method"] for c in f.walk() if c.get("k") == "MethodCall" and c["method"] in LOSSY_OR_REORDERING]
+        inner = [c for c in f.walk() if c.get("k") == "MethodCall" and c["method"] in ("extend", "push") and c["recv"].get("k") == "Field" and c["recv"]["field"] == "check_errors"]
+        ok = not lossy and len(inner) == 1 and ("param", "iter") in pve.atoms(inner[0]["args"][0]) and \
+            not any("BTreeSet" in norm(x.get("t", "")) or "HashSet" in norm(x.get("t", "")) for x in f.walk() if x.get("k") in ("Call", "MethodCall", "Path"))
+        R.check("R18-e", "output-keeps-all", ok, "every recorded diagnostic is kept",
+                "CliOutput::extend filters or de-duplicates diagnostics (%s): some offending file may be named by no diagnostic" % (lossy or "set-based de-duplication"),
+                loc=f.loc())
     # the schema arm reports every type-system diagnostic
     rs = P.fn(CLI + "check::resolve_schema")
     pvs = Prov(rs)
